@@ -17,6 +17,7 @@ Types are tuples:
   ("tr", Name, [(method, mutable_self, [argtypes], ret)])   impl Name, a `pub trait Name` declared in the owner's module
 lt is None (anonymous / elided), "static", or a lifetime name without the tick.
 """
+import random as random_mod
 import random
 
 INTS = {
@@ -194,7 +195,7 @@ DEFAULT_PROFILE = dict(
     dip_spellings=True, result_dip=False, keyword_params=True, nested_structs=True,
     max_params=5, cb_struct_args=True, opt_slices=True, char=False, ordering=True,
     mut_self=True, opt_mut_oref=True, namespaces=False, byte_slices=True, renames=False,
-    strs_utf8=False, result_prim_err=True, opt_owned=False, write_prob=0.18, cb_opt=True, cb_slices=True, cb_strs=True, cb_aggr_ret=True, traits=False, trait_prob=0.5, held_callbacks=False, self_spelling=True, opt_strs=True, cb_orefs=False, opt_slice_fields=False, trait_method_disable=0.0, dip_params=0.2,
+    strs_utf8=False, result_prim_err=True, opt_owned=False, write_prob=0.18, cb_opt=True, cb_slices=True, cb_strs=True, cb_aggr_ret=True, traits=False, trait_prob=0.5, held_callbacks=False, self_spelling=True, opt_strs=True, cb_orefs=False, opt_slice_fields=False, trait_method_disable=0.0, dip_params=0.2, impl_split=0.25,
 )
 
 
@@ -269,6 +270,8 @@ class Gen:
             cur = val
             variants.append((vname, e))
         en = Enum(self.fresh("En"), variants)
+        # the same values written as hex / octal / binary literals or with digit separators (the AST parses the literal itself)
+        en.lit_styles = {vn: self.pick(["hex", "oct", "bin", "under", "hexu"]) for vn, e in variants if e is not None and abs(e) < 2 ** 31 and self.chance(0.35)}
         self.enums.append(en)
         return en
 
@@ -661,4 +664,9 @@ class Gen:
         order = list(items)
         self.r.shuffle(order)
         mod.items = order
+        # the methods of a type spread over two or three impl blocks
+        rsplit = random_mod.Random(self.r.random())      # a private stream: earlier seeds keep generating the programs they used to
+        for t in items:
+            if len(t.methods) >= 2 and rsplit.random() < self.p["impl_split"]:
+                t.impl_cuts = sorted(rsplit.sample(range(1, len(t.methods)), min(len(t.methods) - 1, rsplit.choice([1, 1, 2]))))
         return prog
